@@ -36,15 +36,19 @@ def run_c19(tier):
     json.dump({"S": S, "states": states, "bin": bins}, open(tpath, "w"))
     maxlen = 5 if tier == "quick" else 6
     findings, summaries = [], []
-    for variant in ["default", "checks"]:
-        recs = jsonl(run_bin(variant, "sm_replay", [tpath, maxlen if variant == "default" else min(maxlen, 5)]))
+    # the table does not depend on which concrete slots stand for the model's 1..4: replayed with
+    # numeric slots and with mixtures of textual / numeric / `$f<n>` names whose order interleaves
+    for variant, kinds in [("default", "numeric"), ("checks", "numeric"), ("default", "mixed-a"), ("default", "mixed-b")]:
+        recs = jsonl(run_bin(variant, "sm_replay", [tpath, maxlen if (variant, kinds) == ("default", "numeric") else min(maxlen, 5)],
+                             env={"VERIF_SM_KINDS": kinds}))
         for r in recs:
             r["variant"] = variant
+            r["slot_kinds"] = kinds
             (summaries if r["kind"] == "summary" else findings).append(r)
     # direction B: recorded random long sequences over 12-16 slots validated by TLC
     runs, ln = (40, 100) if tier == "quick" else (300, 200)
     trace = os.path.join(OUT, "tlc", "C19_trace.ndjson")
-    rec = jsonl(run_bin("default", "sm_record", [trace, runs, ln]))[0]
+    rec = jsonl(run_bin("default", "sm_record", [trace, runs, ln], env={"VERIF_SM_KINDS": ["numeric", "mixed-a", "mixed-b"][seed() % 3]}))[0]
     ok, tst, evno, excerpt = validate_trace("C19_trace", "TraceSlotMap", {"TraceS": Raw("0..63")}, trace)
     if not ok:
         lines = open(trace).read().splitlines()
